@@ -44,6 +44,10 @@ class ContentsViaWriteTo(ContentsWithCachedPathFromWriteToBase):
             with self._as_file_path.open() as f_cached:
                 output.writelines(f_cached)
         else:
+            # The writer may write to the file by other means than via the TextIO object
+            # (e.g. by letting a sub process write to it).
+            # So what has been written so far must be flushed, to preserve the order of the contents.
+            output.flush()
             self._writer.write(self._tmp_file_space, output)
 
     @property
